@@ -157,6 +157,27 @@ _AST_CACHE: dict[Any, tuple[ast.AST, str]] = {}
 def function_ast(fn: Any) -> tuple[ast.FunctionDef | ast.AsyncFunctionDef, str]:
     """Parse the *current* source of a real function (no copy is kept between runs)."""
     key = fn
+    if key not in _AST_CACHE and getattr(fn, "__name__", "") == "<lambda>":
+        # a live lambda (e.g. a pydantic BeforeValidator): located in its module's current
+        # source by line and parameter names; body = one return statement
+        try:
+            lines, _ = inspect.findsource(fn)
+        except (OSError, TypeError) as e:
+            raise Unsupported(f"no source for {fn!r}: {e}")
+        mod_src = "".join(lines)
+        code = fn.__code__
+        cands = [n for n in ast.walk(ast.parse(mod_src)) if isinstance(n, ast.Lambda)
+                 and n.lineno == code.co_firstlineno
+                 and [a.arg for a in n.args.posonlyargs + n.args.args] ==
+                 list(code.co_varnames[:code.co_argcount])]
+        if len(cands) != 1:
+            raise Unsupported(f"cannot locate the source of {fn!r}")
+        lam = cands[0]
+        node = ast.FunctionDef(name="<lambda>", args=lam.args, body=[ast.Return(value=lam.body)],
+                               decorator_list=[])
+        ast.copy_location(node, lam)
+        ast.fix_missing_locations(node)
+        _AST_CACHE[key] = (node, hashlib.sha256(ast.unparse(lam).encode()).hexdigest()[:16])
     if key not in _AST_CACHE:
         try:
             src = textwrap.dedent(inspect.getsource(fn))
